@@ -60,6 +60,7 @@ class Info(object):
         self.dims = OD()      # name -> (len, unlimited)
         self.vars = OD()      # name -> (dims tuple, kind 'f'/'i'/'S'..)
         self.cls = 'generic'  # generic | netcdf | ioapi
+        self.disk = False     # variables are netCDF4.Variable objects
         self.coordvals = {}   # dim name -> list of float (1-D var named d)
         self.vglvls = None
         self.coords = ()
@@ -143,8 +144,10 @@ def _cls_of(f):
 
 
 def info_of_file(f):
+    from PseudoNetCDF.core._files import netcdf
     i = Info()
     i.cls = _cls_of(f)
+    i.disk = isinstance(f, netcdf)
     for k, d in f.dimensions.items():
         i.dims[k] = (len(d), bool(d.isunlimited()))
     for k in f.variables.keys():
@@ -183,9 +186,11 @@ def info_of_spec(fs):
         i.vars['TFLAG'] = (('TSTEP', 'VAR', 'DATE-TIME'), 'i')
         i.vglvls = [float(x) for x in fs['vglvls']]
         i.coords = ('TFLAG',)
+        i.disk = bool(fs.get('disk'))
         return i
     route = fs.get('route', 'create')
     i.cls = 'netcdf' if route.startswith('disk') else 'generic'
+    i.disk = route.startswith('disk')
     used = set()
     for v in fs['vars']:
         used.update(v['dims'])
@@ -207,7 +212,7 @@ def info_of_spec(fs):
 
 # ------------------------------------------------------------------ specs
 @st.composite
-def ioapi_specs(draw, max_n=4):
+def ioapi_specs(draw, max_n=4, disk=True):
     nt = draw(st.integers(1, max_n))
     nl = draw(st.integers(1, max_n))
     nr = draw(st.integers(1, max_n))
@@ -233,7 +238,8 @@ def ioapi_specs(draw, max_n=4):
     tstep = draw(st.sampled_from([10000, 3000, 60000, 240000]))
     return dict(kind='ioapi', shape=[nt, nl, nr, nc], perim=perim, vars=vs,
                 vglvls=vgl, sdate=sdate, stime=stime, tstep=tstep,
-                tflag635=False)
+                tflag635=False,
+                disk=bool(disk and draw(st.integers(0, 3)) == 0))
 
 
 def build_ioapi(fs):
@@ -278,7 +284,18 @@ def build(fs, keep=None):
     from PseudoNetCDF import PseudoNetCDFFile, pncopen
     from . import libstate
     if fs.get('kind') == 'ioapi':
-        return build_ioapi(fs)
+        f0 = build_ioapi(fs)
+        if not fs.get('disk'):
+            return f0
+        # "a reader": saved as netCDF and reopened through the ioapi reader
+        path = libstate.scratch_path('.nc')
+        o = f0.save(path, format='NETCDF3_CLASSIC', verbose=0)
+        libstate.release(o)
+        del o
+        f = pncopen(path, format='ioapi')
+        if keep is not None:
+            keep.append(f)
+        return f
     route = fs.get('route', 'create')
     f0 = S.build_file(fs)
     if route == 'create':
@@ -530,7 +547,7 @@ def draw_eval(draw, info):
         '{t} = {a} * 2', '{t} = {a} + {b}', '{t} = np.abs({a}) - {b}',
         '{t} = np.where({a} > {b}, {a}, {b})', '{t} = {a} * 0 + 1.5',
         '{t} = {a} + {b}\n{t}b = {a} - 1']))
-    if info.cls == 'netcdf':
+    if info.disk:
         # netCDF4.Variable objects have no arithmetic: expressions on
         # disk-backed files read the data first (as pncexpr users do)
         a, b = a + '[:]', b + '[:]'
